@@ -58,10 +58,19 @@ func init() {
 // MCP specification (SEP-2164). To restore the pre-1.7.0 release behavior where the
 // error code was -32002, set MCPGODEBUG=customresnotfounderrcode=1.
 func ResourceNotFoundError(uri string) error {
+	// The URI is quoted as JSON, not as Go (%q): Go's escapes for control
+	// bytes (\x7f) are not JSON, and data that is not JSON makes the whole
+	// error response unencodable.
+	data, err := json.Marshal(struct {
+		URI string `json:"uri"`
+	}{uri})
+	if err != nil {
+		data = nil
+	}
 	return &jsonrpc.Error{
 		Code:    CodeResourceNotFound,
 		Message: "Resource not found",
-		Data:    json.RawMessage(fmt.Sprintf(`{"uri":%q}`, uri)),
+		Data:    data,
 	}
 }
 
